@@ -143,6 +143,53 @@ theorem update_listed_unlisted (regs : List Region) (table : List Pred) (sc : Sc
   ⟨update_length regs table sc idx, fun d hd => update_unlisted regs table sc idx d hd,
    fun k i hk => update_listed regs table sc idx hnd hok k i hk⟩
 
+/-- **The property for hyper-rectangles, end to end.**  After `update` with a duplicate-free list
+(no exception), the design `i` at position `k`, if its rectangle does not intersect iteratively, is
+displayed as `[mean_j − s_j·std_j, mean_j + s_j·std_j]` with centre `mean`, where `(mean, std)` is row
+`i` of the full-matrix prediction and `s` the broadcast of the scale row of position `k`. -/
+theorem listed_rect_is_prediction_scaled (regs : List Region) (table : List Pred) (sc : Scale)
+    (idx : List Nat) (hnd : idx.Nodup) (hok : (update regs table sc idx).2 = none)
+    (k i : Nat) (hk : idx[k]? = some i) (r : Rect) (hr : regs[i]? = some (.rect r)) (hi : r.iter = false) :
+    ∃ (p : Pred) (r' : Rect), table[i]? = some p ∧ (update regs table sc idx).1[i]? = some (.rect r') ∧
+      r'.iter = false ∧
+      ∃ s', bcast p.std.length (scaleRow sc k) = some s' ∧
+        ∀ (j : Nat) (μ σ a : Rat), p.mean[j]? = some μ → p.std[j]? = some σ → s'[j]? = some a →
+          r'.lower[j]? = some (μ - σ * a) ∧ r'.upper[j]? = some (μ + σ * a) ∧ r'.center[j]? = some μ := by
+  obtain ⟨r0, p, r1, h0, hp, hupd, hres⟩ := update_listed regs table sc idx hnd hok k i hk
+  rw [hr] at h0
+  simp only [Option.some.injEq] at h0
+  subst h0
+  simp only [VOPy.Region.Region.update] at hupd
+  cases hq : r.update p (scaleRow sc k) with
+  | error e => simp [hq, Except.map] at hupd
+  | ok r' =>
+    simp only [hq, Except.map, Except.ok.injEq] at hupd
+    subst hupd
+    obtain ⟨e1, _, _, s', hs', hent⟩ := rect_update_entries r r' p (scaleRow sc k) hq hi
+    exact ⟨p, r', hp, hres, e1, s', hs', hent⟩
+
+/-- **The property for ellipsoids, end to end.**  After `update` with a duplicate-free list (no
+exception), the ellipsoid of the design `i` at position `k` is `(mean, cov, s)`: row `i` of the
+full-matrix prediction and the single entry of the scale row of position `k`. -/
+theorem listed_ell_is_prediction (regs : List Region) (table : List Pred) (sc : Scale)
+    (idx : List Nat) (hnd : idx.Nodup) (hok : (update regs table sc idx).2 = none)
+    (k i : Nat) (hk : idx[k]? = some i) (e : Ell) (he : regs[i]? = some (.ell e)) :
+    ∃ (p : Pred) (a : Rat), table[i]? = some p ∧ scaleRow sc k = [a] ∧
+      (update regs table sc idx).1[i]? = some (.ell { center := p.mean, sigma := p.cov, alpha := a }) := by
+  obtain ⟨r0, p, r1, h0, hp, hupd, hres⟩ := update_listed regs table sc idx hnd hok k i hk
+  rw [he] at h0
+  simp only [Option.some.injEq] at h0
+  subst h0
+  simp only [VOPy.Region.Region.update, Ell.update] at hupd
+  split at hupd
+  · simp [Except.map] at hupd
+  · split at hupd
+    · rename_i a hsc
+      simp only [Except.map, Except.ok.injEq] at hupd
+      subst hupd
+      exact ⟨p, a, hp, hsc, hres⟩
+    · simp [Except.map] at hupd
+
 /-- non-vacuity: three rectangles, designs 2 and 0 updated (in this order) with per-design scales -/
 example :
     (update [.rect (Rect.init 1), .rect (Rect.init 1), .rect (Rect.init 1)]
